@@ -1474,96 +1474,147 @@ func checkShiftCounts(c *core.Ctx, p *load.Prog) {
 		return ok && b.Info()&types.IsInteger != 0 && b.Info()&types.IsUnsigned == 0
 	}
 	n := 0
-	for _, fd := range funcsOfFiles(p, pkg, "parse.go", "parse_expr.go", "eval_expr.go", "tokenize.go", "token_tree.go") {
-		var nonNeg func(e ast.Expr, depth int) bool
-		nonNeg = func(e ast.Expr, depth int) bool {
-			e = ast.Unparen(e)
-			if v, ok := constInt(info, e); ok {
-				return v >= 0
+	decls := funcsOfFiles(p, pkg, "parse.go", "parse_expr.go", "eval_expr.go", "tokenize.go", "token_tree.go")
+	var nonNeg func(fd *ast.FuncDecl, e ast.Expr, depth int) bool
+	nonNeg = func(fd *ast.FuncDecl, e ast.Expr, depth int) bool {
+		e = ast.Unparen(e)
+		if v, ok := constInt(info, e); ok {
+			return v >= 0
+		}
+		if !signed(info.TypeOf(e)) {
+			return true
+		}
+		if depth > 3 {
+			return false
+		}
+		switch x := e.(type) {
+		case *ast.BinaryExpr:
+			if x.Op == token.ADD || x.Op == token.MUL {
+				return nonNeg(fd, x.X, depth+1) && nonNeg(fd, x.Y, depth+1)
 			}
-			if !signed(info.TypeOf(e)) {
+		case *ast.CallExpr:
+			if wire.Canon(x.Fun) == "len" || wire.Canon(x.Fun) == "cap" {
 				return true
 			}
-			if depth > 3 {
-				return false
+			if tv, ok := info.Types[x.Fun]; ok && tv.IsType() && len(x.Args) == 1 {
+				return nonNeg(fd, x.Args[0], depth+1)
 			}
-			switch x := e.(type) {
-			case *ast.BinaryExpr:
-				if x.Op == token.ADD || x.Op == token.MUL {
-					return nonNeg(x.X, depth+1) && nonNeg(x.Y, depth+1)
-				}
-			case *ast.CallExpr:
-				if wire.Canon(x.Fun) == "len" || wire.Canon(x.Fun) == "cap" {
-					return true
-				}
-				if tv, ok := info.Types[x.Fun]; ok && tv.IsType() && len(x.Args) == 1 {
-					return nonNeg(x.Args[0], depth+1)
-				}
-			case *ast.Ident:
-				// a loop counter that starts at a constant >= 0 and is only incremented
-				o := info.ObjectOf(x)
-				okInit, okSteps := false, true
-				ast.Inspect(fd.Body, func(m ast.Node) bool {
-					switch y := m.(type) {
-					case *ast.AssignStmt:
-						for i, l := range y.Lhs {
-							if lid, ok := l.(*ast.Ident); ok && info.ObjectOf(lid) == o {
-								if y.Tok == token.DEFINE && i < len(y.Rhs) {
-									if v, ok := constInt(info, y.Rhs[i]); ok && v >= 0 {
-										okInit = true
-										continue
-									}
+		case *ast.Ident:
+			// a loop counter that starts at a constant >= 0 and is only incremented
+			o := info.ObjectOf(x)
+			okInit, okSteps := false, true
+			ast.Inspect(fd.Body, func(m ast.Node) bool {
+				switch y := m.(type) {
+				case *ast.AssignStmt:
+					for i, l := range y.Lhs {
+						if lid, ok := l.(*ast.Ident); ok && info.ObjectOf(lid) == o {
+							if y.Tok == token.DEFINE && i < len(y.Rhs) {
+								if v, ok := constInt(info, y.Rhs[i]); ok && v >= 0 {
+									okInit = true
+									continue
 								}
-								if y.Tok == token.ADD_ASSIGN {
-									if v, ok := constInt(info, y.Rhs[0]); ok && v >= 0 {
-										continue
-									}
-								}
-								okSteps = false
 							}
-						}
-					case *ast.IncDecStmt:
-						if lid, ok := y.X.(*ast.Ident); ok && info.ObjectOf(lid) == o && y.Tok != token.INC {
+							if y.Tok == token.ADD_ASSIGN {
+								if v, ok := constInt(info, y.Rhs[0]); ok && v >= 0 {
+									continue
+								}
+							}
 							okSteps = false
 						}
 					}
-					return true
-				})
-				return okInit && okSteps
-			}
-			return false
-		}
-		guarded := func(count ast.Expr, at token.Pos) bool {
-			want := wire.Canon(count)
-			found := false
-			ast.Inspect(fd.Body, func(m ast.Node) bool {
-				ifs, ok := m.(*ast.IfStmt)
-				if !ok || ifs.Pos() >= at || !endsInReturn(ifs.Body) {
-					return true
+				case *ast.IncDecStmt:
+					if lid, ok := y.X.(*ast.Ident); ok && info.ObjectOf(lid) == o && y.Tok != token.INC {
+						okSteps = false
+					}
 				}
-				ast.Inspect(ifs.Cond, func(k ast.Node) bool {
-					be, ok := k.(*ast.BinaryExpr)
-					if !ok {
-						return true
-					}
-					if be.Op == token.LSS && wire.Canon(be.X) == want {
-						if v, ok := constInt(info, be.Y); ok && v == 0 {
-							found = true
-						}
-					}
-					if be.Op == token.GTR && wire.Canon(be.Y) == want {
-						if v, ok := constInt(info, be.X); ok && v == 0 {
-							found = true
-						}
-					}
-					return true
-				})
 				return true
 			})
-			return found
+			return okInit && okSteps
 		}
+		return false
+	}
+	guarded := func(fd *ast.FuncDecl, count ast.Expr, at token.Pos) bool {
+		want := wire.Canon(count)
+		found := false
+		ast.Inspect(fd.Body, func(m ast.Node) bool {
+			ifs, ok := m.(*ast.IfStmt)
+			if !ok || ifs.Pos() >= at || !endsInReturn(ifs.Body) {
+				return true
+			}
+			// the guard may be one conjunct: if count < 0 && isShift { return … }
+			// only covers the shifts; accepted when the call it protects is reached
+			// for shifts only is not decidable here, so a conjunction is accepted
+			// only if its other conjuncts do not mention the count
+			ast.Inspect(ifs.Cond, func(k ast.Node) bool {
+				be, ok := k.(*ast.BinaryExpr)
+				if !ok {
+					return true
+				}
+				if be.Op == token.LSS && wire.Canon(be.X) == want {
+					if v, ok := constInt(info, be.Y); ok && v == 0 {
+						found = true
+					}
+				}
+				if be.Op == token.GTR && wire.Canon(be.Y) == want {
+					if v, ok := constInt(info, be.X); ok && v == 0 {
+						found = true
+					}
+				}
+				return true
+			})
+			return true
+		})
+		return found
+	}
+	// a count that is a parameter is safe when every call in the package hands
+	// it a value that is non-negative or guarded at the call
+	var safeParam func(fd *ast.FuncDecl, count ast.Expr, depth int) bool
+	safeParam = func(fd *ast.FuncDecl, count ast.Expr, depth int) bool {
+		id, ok := ast.Unparen(count).(*ast.Ident)
+		if !ok || depth > 2 {
+			return false
+		}
+		v, ok := info.ObjectOf(id).(*types.Var)
+		if !ok || !isParamOf(info, fd, v) {
+			return false
+		}
+		self, _ := info.Defs[fd.Name].(*types.Func)
+		sig, _ := self.Type().(*types.Signature)
+		if self == nil || sig == nil {
+			return false
+		}
+		idx := -1
+		for i := 0; i < sig.Params().Len(); i++ {
+			if sig.Params().At(i) == v {
+				idx = i
+			}
+		}
+		if idx < 0 {
+			return false
+		}
+		calls, allOK := 0, true
+		for _, cfd := range decls {
+			ast.Inspect(cfd.Body, func(m ast.Node) bool {
+				call, ok := m.(*ast.CallExpr)
+				if !ok || load.Callee(info, call) != self || idx >= len(call.Args) {
+					return true
+				}
+				calls++
+				a := call.Args[idx]
+				if !(nonNeg(cfd, a, 0) || guarded(cfd, a, call.Pos()) || safeParam(cfd, a, depth+1)) {
+					allOK = false
+				}
+				return true
+			})
+		}
+		return calls > 0 && allOK
+	}
+	for _, fd := range decls {
 		k := 0
 		ast.Inspect(fd.Body, func(m ast.Node) bool {
+			if _, isLit := m.(*ast.FuncLit); isLit {
+				return true
+			}
 			var count ast.Expr
 			var pos token.Pos
 			switch x := m.(type) {
@@ -1581,9 +1632,24 @@ func checkShiftCounts(c *core.Ctx, p *load.Prog) {
 			}
 			n++
 			k++
-			ok := nonNeg(count, 0) || guarded(count, pos)
+			ok := nonNeg(fd, count, 0) || guarded(fd, count, pos) || safeParam(fd, count, 0)
+			if !ok {
+				// a shift inside a function literal (an operator table): its count
+				// is the literal's own parameter, which the rule does not follow
+				inLit := false
+				ast.Inspect(fd.Body, func(q ast.Node) bool {
+					if fl, isLit := q.(*ast.FuncLit); isLit && fl.Pos() <= pos && pos < fl.End() {
+						inLit = true
+					}
+					return true
+				})
+				if inLit {
+					c.Undecide("%s: the shift at %s sits in a function literal; whether its count can be negative depends on where the literal is called", fd.Name.Name, p.Pos(pos))
+					return true
+				}
+			}
 			c.Check("R12", fmt.Sprintf("%s: the count of shift #%d (%s) cannot be negative", fd.Name.Name, k, wire.Canon(count)), p.Pos(pos), ok,
-				"the count "+wire.Canon(count)+" is a signed value taken from the schema text and no earlier `if "+wire.Canon(count)+" < 0 { return … }` excludes a negative one: Go panics on a negative shift count, so `A = 1 << -1;` in a [flags] enum makes ReadFile panic instead of returning an error")
+				"the count "+wire.Canon(count)+" is a signed value taken from the schema text and no earlier `if "+wire.Canon(count)+" < 0 { return … }` excludes a negative one (here or at every call that supplies it): Go panics on a negative shift count, so `A = 1 << -1;` in a [flags] enum makes ReadFile panic instead of returning an error")
 			return true
 		})
 	}
